@@ -233,6 +233,10 @@ def first_order_match(pat, t, inst=None):
                 inst.abs_name_inst[pat.var_name] = t.var_name
 
                 var_names = [v.name for v in pat.body.get_vars() + t.body.get_vars()]
+                # ... and the variables of what is already assigned: a schematic
+                # variable of the body stands for such a term.
+                for s in inst.values():
+                    var_names.extend(v.name for v in s.get_vars())
                 nm = name.get_variant_name(pat.var_name, var_names)
                 v = Var(nm, T)
                 pat_body = pat.subst_type(inst.tyinst).subst_bound(v)
